@@ -55,7 +55,9 @@ SpanDefects(bytes, leaves, n, k) ==
                                    hi == IF n.s < n.c[1].s THEN n.c[1].s ELSE n.s
                                IN \* classified separately: only the start differs and only by layout
                                   IF n.e = n.c[Len(n.c)].e /\ lo >= 0 /\ hi <= Len(bytes)
-                                     /\ \A i \in (lo + 1) .. hi : IsWsByte(bytes[i])
+                                     /\ (\/ \A i \in (lo + 1) .. hi : IsWsByte(bytes[i])
+                                         \* Layout rule (comments): the gap holds no token of the tree
+                                         \/ \A j \in 1 .. Len(leaves) : leaves[j].e <= lo \/ leaves[j].s >= hi)
                                   THEN {<<"nonterm_start_differs_by_layout", n.p, n.s, n.e, n.c[1].s>>}
                                   ELSE {<<"nonterm_span", n.p, n.s, n.e, n.c[1].s, n.c[Len(n.c)].e>>}
           IN pos \cup own \cup Kids(1, k)
